@@ -361,8 +361,8 @@ theorem slotOf_noDeg (o : Opts) (m : Message) (f : Field)
   | none => rfl
   | some p => simp only [fieldAtoms_noDeg o _ _ _ _ (hu p hp)]
 
-/-- **a position written in degrees comes back** — `ToSemicircles(ParseFloat(format(ToDegrees(s))))` is `s`
-(`Arith.so.degrees`; float arithmetic and float text: assumed) -/
+/-- **a position written in degrees comes back** — `ToSemicircles(ToDegrees(s))` is `s` in binary64 (`C12_semicircles`;
+the float TEXT in between: assumed, as everywhere) -/
 theorem cell_rt_degrees (o : Opts) (hdeg : o.degrees = true) (ds : List Desc) (m : Message) (f : Field) (p : PField)
     (hp : pfield m.num (fieldNumOf f) = some p) (hu : txt p.units = semicirclesTxt) (hs : FieldScope m f) :
     readCell Arith.so ds m.num (writeField o m f) = .ok (.field (unflag f)) := by
@@ -397,7 +397,8 @@ theorem cell_rt_degrees (o : Opts) (hdeg : o.degrees = true) (ds : List Desc) (m
   rw [hw]
   have hun : unflag f = mkField p.num p.bt (.int32 x) := by rw [unflag, hfn, hfbt, hx]
   rw [hun]
-  simp [readCell, h3, h1, h2, harr, parseCellValue, parseAtom, hbt, hb, Arith.so]
+  have hsemi : Arith.so.degrees x = x := Fit.C12.C12_semicircles x hlt
+  simp [readCell, h3, h1, h2, harr, parseCellValue, parseAtom, hbt, hb, hsemi]
 
 /-- **the first pass, for one field within scope** — with or without the degrees option -/
 theorem cell_rt (o : Opts) (ds : List Desc) (hds : NoSubNames ds) (m : Message) (f : Field)
